@@ -121,6 +121,7 @@ type Exec struct {
 	globals   map[*ssa.Global]*value
 	steps     int
 	depth     int
+	top       *frame
 	funcsSeen map[*ssa.Function]bool
 	extUsed   map[string]int
 
@@ -564,7 +565,7 @@ func (e *Engine) runPath(task func(ex *Exec), sb sibling, solver *Solver, sibs *
 				case targetPanic:
 					ex.res.End, ex.res.Msg = "uncaught-panic", ex.panicText(r.v)
 				default:
-					ex.res.End, ex.res.Msg = "engine-error", fmt.Sprint(r)
+					ex.res.End, ex.res.Msg = "engine-error", fmt.Sprint(r)+" @ "+ex.targetStack(6)
 					if e.Trace || os.Getenv("GOSX_DEBUG") != "" {
 						fmt.Fprintf(os.Stderr, "engine error: %v\n%s\n", r, debug.Stack())
 					}
@@ -660,3 +661,15 @@ func (ex *Exec) Stop(msg string) { panic(pathEnd{kind: endStop, msg: msg}) }
 func (ex *Exec) PanicText(p *targetPanic) string { return ex.panicText(p.v) }
 func (ex *Exec) Model() Model                    { return ex.model }
 func (ex *Exec) PCLen() int                      { return len(ex.pc) }
+
+// targetStack renders the innermost n target frames (for diagnostics).
+func (ex *Exec) targetStack(n int) string {
+	s := ""
+	for fr := ex.top; fr != nil && n > 0; fr, n = fr.caller, n-1 {
+		if s != "" {
+			s += " < "
+		}
+		s += fr.fn.String()
+	}
+	return s
+}
